@@ -234,10 +234,15 @@ func c18Concurrent(w *W) {
 }
 
 func c18Sequential(w *W) {
-	ordered := simrt.Choose(2) == 1
+	// two live sets (A is the one most operations go to): Extend and Equal
+	// take another *live* set as their argument, and an operation on one set
+	// must never disturb the other
+	ordered0 := simrt.Choose(2) == 1
 	synced := simrt.Choose(2) == 1
-	s := newSet(ordered, synced)
-	var model []int // insertion order (sorted order after a sort)
+	ordered1 := simrt.Choose(2) == 1
+	sets := [2]*dt.Set[int]{newSet(ordered0, synced), newSet(ordered1, simrt.Choose(2) == 1)}
+	ords := [2]bool{ordered0, ordered1}
+	var models [2][]int // insertion order (sorted order after a sort)
 	ctx := w.Ctx
 	nOps := 1 + simrt.Choose(12)
 	var trace []string
@@ -246,10 +251,45 @@ func c18Sequential(w *W) {
 	}
 	lt := func(a, b int) bool { return a < b }
 	for k := 0; k < nOps && len(w.Out.Violations) == 0; k++ {
+		cur := 0
+		if simrt.Choose(4) == 3 {
+			cur = 1
+		}
+		s, model, ordered := sets[cur], models[cur], ords[cur]
+		other, otherModel, otherOrdered := sets[1-cur], models[1-cur], ords[1-cur]
+		tag := "AB"[cur : cur+1]
 		v := 1 + simrt.Choose(4)
 		idx := indexOf(model, v)
-		op := simrt.Choose(11)
+		op := simrt.Choose(12)
+		trace = append(trace, tag+":")
 		switch op {
+		case 11:
+			trace = append(trace, "Extend(other live set)")
+			s.Extend(other)
+			for _, x := range otherModel {
+				if indexOf(model, x) < 0 {
+					model = append(model, x)
+				}
+			}
+			if !otherOrdered {
+				// an unordered source is iterated in no particular order: an
+				// ordered receiver's order among the new items is unspecified
+				if ordered {
+					model = iterate(ctx, s)
+					got := append([]int{}, model...)
+					want := append([]int{}, models[cur]...)
+					for _, x := range otherModel {
+						if indexOf(want, x) < 0 {
+							want = append(want, x)
+						}
+					}
+					sort.Ints(got)
+					sort.Ints(want)
+					if !sameSeq(got, want) {
+						fail("extend", "Extend(unordered %v) left %v", otherModel, model)
+					}
+				}
+			}
 		case 0:
 			trace = append(trace, fmt.Sprintf("Add(%d)", v))
 			s.Add(v)
@@ -374,18 +414,34 @@ func c18Sequential(w *W) {
 		if len(w.Out.Violations) > 0 {
 			break
 		}
-		got := iterate(ctx, s)
-		want := append([]int{}, model...)
-		if !ordered {
-			sort.Ints(got)
-			sort.Ints(want)
+		models[cur], ords[cur] = model, ordered
+		for i := range sets {
+			got := iterate(ctx, sets[i])
+			want := append([]int{}, models[i]...)
+			if !ords[i] {
+				sort.Ints(got)
+				sort.Ints(want)
+			}
+			if !sameSeq(got, want) {
+				fail("iteration", "iteration of set %s yields %v, want %v (ordered=%v)", "AB"[i:i+1], got, want, ords[i])
+			}
+			if n := sets[i].Len(); n != len(models[i]) {
+				fail("len", "Len() of set %s = %d, want %d", "AB"[i:i+1], n, len(models[i]))
+			}
 		}
-		if !sameSeq(got, want) {
-			fail("iteration", "iteration yields %v, want %v (ordered=%v)", got, want, ordered)
+		// Equal between the two live sets, where the statement defines it
+		if ords[0] == ords[1] && len(w.Out.Violations) == 0 {
+			want := sameMultiset(models[0], models[1])
+			if ords[0] {
+				want = sameSeq(models[0], models[1])
+			}
+			if got := sets[0].Equal(sets[1]); got != want {
+				fail("equal-live", "A.Equal(B) = %v with A=%v B=%v (ordered=%v)", got, models[0], models[1], ords[0])
+			}
 		}
 	}
-	w.Config("sequential ordered=%v synced=%v ops=%v", ordered, synced, trace)
-	w.State(fmt.Sprintf("seq ordered=%v synced=%v n=%d", ordered, synced, min(len(model), 4)))
+	w.Config("sequential ordered=%v/%v synced=%v ops=%v", ords[0], ords[1], synced, trace)
+	w.State(fmt.Sprintf("seq ordered=%v synced=%v n=%d", ords[0], synced, min(len(models[0]), 4)))
 	w.hist = trace
 }
 
